@@ -49,6 +49,14 @@ use super::{
     env::Environment,
 };
 
+/// Appends `.{ext}` to the whole file name, keeping any dots it already contains
+fn add_extension(path: &Path, ext: &str) -> PathBuf {
+    let mut name = path.as_os_str().to_owned();
+    name.push(".");
+    name.push(ext);
+    PathBuf::from(name)
+}
+
 trait UserDefinedCallable {
     fn name(&self) -> Identifier;
     fn arguments(&self) -> &ArgumentDeclaration;
@@ -840,12 +848,12 @@ impl<'a> Visitor<'a> {
         macro_rules! try_path_with_extensions {
             ($path:expr) => {
                 let path = $path;
-                try_path!(path.with_extension("import.sass"));
-                try_path!(path.with_extension("import.scss"));
-                try_path!(path.with_extension("import.css"));
-                try_path!(path.with_extension("sass"));
-                try_path!(path.with_extension("scss"));
-                try_path!(path.with_extension("css"));
+                try_path!(add_extension(path.as_ref(), "import.sass"));
+                try_path!(add_extension(path.as_ref(), "import.scss"));
+                try_path!(add_extension(path.as_ref(), "import.css"));
+                try_path!(add_extension(path.as_ref(), "sass"));
+                try_path!(add_extension(path.as_ref(), "scss"));
+                try_path!(add_extension(path.as_ref(), "css"));
             };
         }
 
